@@ -131,27 +131,7 @@ func (a *An) c01Gates() {
 		}
 		R.Floor("G.dh-range", 2)
 	}
-	// who may write ake.theirPublicValue, and with what
-	if fld := a.MustField("ake", "theirPublicValue"); fld != nil {
-		for _, st := range a.DirectStoresTo(fld) {
-			fn := a.C.Name(st.Parent())
-			key := "write|ake.theirPublicValue|" + fn
-			switch fn {
-			case "(*Conversation).processDHKey":
-				// stored value is the value that passed isGroupElement
-				fs := a.F.LocalAt(st)
-				t := a.C.Term(st.Val)
-				R.Check(fs.Has("passed:isGroupElement("+t+")"), "W.their-dh", key, "the stored peer DH value is the one that passed isGroupElement", a.C.InstrPos(st), "stored "+t+" without passed:isGroupElement("+t+")")
-			case "(*Conversation).processRevealSig":
-				R.Check(strings.HasPrefix(a.C.Term(st.Val), "extractGx("), "W.their-dh", key, "the stored peer DH value is the result of extractGx (range-checked, failure returned)", a.C.InstrPos(st), "stored "+a.C.Term(st.Val))
-			case "(*ake).wipe":
-				R.Ok("W.their-dh", key, "wipe clears the value", a.C.InstrPos(st))
-			default:
-				R.Viol("W.their-dh", key, "ake.theirPublicValue written only by processDHKey, processRevealSig, wipe", a.C.InstrPos(st), fn+" writes it")
-			}
-		}
-		R.Floor("W.their-dh", 3)
-	}
+	a.theirDHWriters()
 	// AWAITING_SIG is entered only after the DH-Key was processed (range check) and the Reveal-Signature built
 	for _, f := range a.C.FuncSeq {
 		for _, b := range f.Blocks {
@@ -453,4 +433,31 @@ func (a *An) c01Provenance() {
 		}
 	}
 	R.Floor(rule, 30)
+}
+
+func (a *An) theirDHWriters() {
+	R := a.R
+	// who may write ake.theirPublicValue, and with what
+	if fld := a.MustField("ake", "theirPublicValue"); fld != nil {
+		for _, st := range a.DirectStoresTo(fld) {
+			fn := a.C.Name(st.Parent())
+			key := "write|ake.theirPublicValue|" + fn
+			switch fn {
+			case "(*Conversation).processDHKey":
+				// stored value is the value that passed isGroupElement
+				fs := a.F.LocalAt(st)
+				t := a.C.Term(st.Val)
+				R.Check(fs.Has("passed:isGroupElement("+t+")"), "W.their-dh", key, "the stored peer DH value is the one that passed isGroupElement", a.C.InstrPos(st), "stored "+t+" without passed:isGroupElement("+t+")")
+				R.Check(fs.Has("passed:(Conversation.ake.theirPublicValue == nil)"), "W.their-dh", key+"|first-only", "a DH-Key message sets the peer DH value only when none is stored yet (a repeated DH-Key is compared, never adopted)", a.C.InstrPos(st),
+					"processDHKey overwrites the peer DH value of a running exchange: a second DH-Key in AWAITING_SIG is ignored yet changes the value the Signature will be checked against")
+			case "(*Conversation).processRevealSig":
+				R.Check(strings.HasPrefix(a.C.Term(st.Val), "extractGx("), "W.their-dh", key, "the stored peer DH value is the result of extractGx (range-checked, failure returned)", a.C.InstrPos(st), "stored "+a.C.Term(st.Val))
+			case "(*ake).wipe":
+				R.Ok("W.their-dh", key, "wipe clears the value", a.C.InstrPos(st))
+			default:
+				R.Viol("W.their-dh", key, "ake.theirPublicValue written only by processDHKey, processRevealSig, wipe", a.C.InstrPos(st), fn+" writes it")
+			}
+		}
+		R.Floor("W.their-dh", 3)
+	}
 }
